@@ -28,9 +28,12 @@ def run(prog, chk):
     chk.decided += ["components are only resolved into contours by util.decomposeCompositeGlyph; no other decomposing pen / component removal outside reviewed functions (R01.7, shared with C15)",
                     "the outline compilers generate a glyph only for a name the glyph set lacks: a source glyph is never replaced by a generated one (R01.8, shared with C02)",
                     "a glyph's width / height is only assigned at the reviewed sites: the compiled advance is the source glyph's own (R01.9)"]
+    chk.decided += ["every glyph's charstring is compiled from that glyph: OutlineOTFCompiler.compileGlyphs stores, under each glyph's name, the object getCharStringForGlyph returned for that very glyph - "
+                    "no look-alike table hands one glyph the charstring (or the charstring object) of another (R01.12 = R12.10)"]
     chk.decided += ["the CFF font matrix scales charstring units by 1 / unitsPerEm of the same font info (on both diagonal entries, nothing else), on every path of setupTable_CFF (R01.11)"]
     chk.decided += ["the caller's outline options reach the outline compiler as given: compileOutlines only overrides the reviewed entries of the forwarded option table "
                     "(sparse-master tables, optimizeCFF / glyphDataFormat / roundCoordinates / dropImpliedOnCurves of interpolatable masters) and no compiler assigns an outline option to itself (R01.10)"]
+    chk.decided += ["the decomposition helper draws every component it removes, whatever its transformation: what a master contributes does not depend on that master's own transform values (R01.13 = R15.1b)"]
     chk.not_decided += ["that drawn coordinates equal the source (fontTools pens)", "composition of nested transforms", "semantics of roundTolerance inside T2CharStringPen"]
     chk.guard(r011, prog, chk)
     chk.guard(r012, prog, chk, "R01.2")
@@ -44,6 +47,9 @@ def run(prog, chk):
     chk.guard(r019, prog, chk)
     chk.guard(check_outline_option_overrides, prog, chk, "R01.10")
     chk.guard(r0111, prog, chk)
+    chk.guard(r0112, prog, chk, "R01.12")
+    from .c15 import r151b
+    chk.guard(r151b, prog, chk, "R01.13")
 
 
 # ----------------------------------------------------------------------------- R01.1
@@ -469,7 +475,47 @@ def r0111(prog, chk):
     chk.minimum("R01.11", 1)
 
 
+# ----------------------------------------------------------------------------- R01.12 (= R12.10)
+def r0112(prog, chk, rule="R01.12"):
+    ix = prog.ix
+    f = ix.get_method(OTF_OUTLINE, "compileGlyphs", own=True)
+    rets = A.returns_of(f.node)
+    need(len(rets) == 1 and isinstance(rets[0].value, ast.Name), f"cannot interpret {f.short}: returned table")
+    table = rets[0].value.id
+    sts = [(s_, t, v) for s_, t, v in subscript_stores(f) if isinstance(t.value, ast.Name) and t.value.id == table]
+    need(len(sts) >= 1, f"cannot interpret {f.short}: stores into {table}")
+    for s_, t, v in sts:
+        loops = [a for a in ix.ancestors(s_) if isinstance(a, ast.For)]
+        ok = bool(loops)
+        why = ""
+        if ok:
+            lp = loops[0]
+            # the stored value: the charstring compiled for the glyph of this iteration, as returned
+            okv, bad = every_origin(prog, f, v, lambda x, ff: isinstance(x, ast.Call) and A.callee_name(x) == "getCharStringForGlyph", allow_const=False)
+            calls = [c for c in A.body_nodes(lp) if isinstance(c, ast.Call) and A.callee_name(c) == "getCharStringForGlyph"]
+            okg = len(calls) == 1 and calls[0].args
+            if okg:
+                g = calls[0].args[0]
+                gds = prog.reaching(f, g.id, g) if isinstance(g, ast.Name) else []
+                # the glyph is looked up under the name the charstring is stored under
+                okg = bool(gds) and all(d.value is not None and isinstance(d.value, ast.Subscript) and T(d.value.slice) == T(t.slice) for d in gds) or \
+                    (isinstance(g, ast.Name) and g.id in A.target_names(lp.target) and T(t.slice) in A.target_names(lp.target) or (isinstance(g, ast.Name) and T(t.slice) == f"{g.id}.name"))
+            cond_free = not [c for c in may_conds(prog, f, calls[0]) if c.kind in ("if", "boolop", "ifexp", "while") and any(a is lp for a in ix.ancestors(c.loc))] if calls else False
+            ok = okv and bool(okg) and cond_free
+            why = f"stored value comes from {bad}" if not okv else "" if okg else "glyph / name mismatch" if cond_free else "the compilation is conditional"
+        chk.ob(rule, f"{f.short}|{A.keytext(f.node, s_)}|each name gets the charstring compiled from its own glyph", ok, where(f, s_), detail=T(s_, 70),
+               message=f"{f.short}: the charstring stored under a glyph's name is not simply the one getCharStringForGlyph returned for that glyph ({why or T(v, 40)}): glyphs that only look "
+                       f"alike to some key can receive each other's outline, and a charstring object shared by two glyphs is rewritten twice by an in-place subroutiniser")
+    chk.minimum(rule, 1)
+
+
 MUTANTS = [
+    M("components with a singular transformation are dropped instead of drawn (seeded C09k)", "ufo2ft/util.py", "decomposeCompositeGlyph",
+      "pen = DecomposingFilterPointPen(glyph.getPointPen(), glyphSet, reverseFlipped=reverseFlipped, include=include, decomposeNested=decomposeNested)",
+      "pen = DecomposingFilterPointPen(glyph.getPointPen(), glyphSet, reverseFlipped=reverseFlipped, include=include, decomposeNested=decomposeNested)\nfor component in list(glyph.components):\n    if component.transformation[0] * component.transformation[3] == component.transformation[1] * component.transformation[2]:\n        glyph.removeComponent(component)", rule="R01.13"),
+    M("identical programs share one charstring object (seeded C12k)", "ufo2ft/outlineCompiler.py", "OutlineOTFCompiler.compileGlyphs",
+      "compiledGlyphs[glyphName] = cs", "compiledGlyphs[glyphName] = seen.setdefault(tuple(cs.program), cs)", rule="R01.12",
+      also=(("ufo2ft/outlineCompiler.py", "OutlineOTFCompiler.compileGlyphs", "compiledGlyphs = {}", "compiledGlyphs = {}\nseen = {}"),)),
     M("include narrowed to the direct references before it reaches the pen (seeded C13j)", "ufo2ft/util.py", "decomposeCompositeGlyph",
       "if len(glyph.components) == 0:\n    return", "if len(glyph.components) == 0:\n    return\nif include is not None:\n    include = {c.baseGlyph for c in glyph.components if c.baseGlyph in include}", rule="R01.2"),
     M("CFF font matrix left at the 1000-unit default (mutation scan 3, k=41)", "ufo2ft/outlineCompiler.py", "OutlineOTFCompiler.setupTable_CFF",
